@@ -23,6 +23,10 @@ try:
                        stdout=subprocess.DEVNULL, stderr=subprocess.DEVNULL)
     if r.returncode != 0:
         print('setup: kani warm-up failed (Kani legs will report UNDECIDED)', file=sys.stderr)
+    # debug build of the real interpreter used by the replay search / bounded stand-in
+    renv = dict(os.environ, CARGO_NET_OFFLINE='true', CARGO_TARGET_DIR=os.path.join(VERIF, '.cache', 'replay-target'))
+    renv.pop('RUSTUP_TOOLCHAIN', None)
+    subprocess.run(['cargo', 'build', '--offline'], cwd=tmp + '/repo', env=renv, stdout=subprocess.DEVNULL, stderr=subprocess.DEVNULL)
     r = subprocess.run(['verus', '--version'], stdout=subprocess.DEVNULL)
     sys.exit(r.returncode)
 finally:
